@@ -1,6 +1,7 @@
 package main
 
 import (
+	"os"
 	"encoding/binary"
 	"encoding/hex"
 	"fmt"
@@ -267,6 +268,30 @@ func c20(out string) {
 				if _, ok := ph[h]; !ok {
 					ph[h] = "boundary"
 				}
+			}
+		}
+	}
+	// a dense stretch of heights from 0 (special-cased heights inside PrevalidateBlock itself) and, where the table is
+	// not empty, the same stretch just below the last checkpoint plus random secured heights
+	dense := uint64(1024)
+	if os.Getenv("VERIF_TIER") == "thorough" {
+		dense = 16384
+	}
+	for h := uint64(0); h < dense; h++ {
+		if _, ok := ph[h]; !ok {
+			ph[h] = "dense"
+		}
+		if count > 0 && count*step > h {
+			if _, ok := ph[count*step-h]; !ok {
+				ph[count*step-h] = "dense"
+			}
+		}
+	}
+	if count > 0 {
+		for i := uint64(0); i < dense; i++ {
+			h := rng.UpTo(count * step)
+			if _, ok := ph[h]; !ok {
+				ph[h] = "random"
 			}
 		}
 	}
